@@ -315,8 +315,17 @@ CHECKS = {
 
 # sentences appended to the level text (extensions made after the seeded-change waves)
 EXTRA = {
+    "C01": " Single-field deviations are also parsed through every other entry point that reads ACE "
+           "lines (AceGroup, Acl, items lists, acls/aces with and without group_by, data, copy).",
     "C03": " Also: every ordered pair of standard (source-only) IOS entries over action x 19 addresses x "
-           "log, and the <=1-deviation pair space with protocol_nr / port_nr on.",
+           "log, the <=1-deviation pair space with protocol_nr / port_nr on, and entries modified after "
+           "construction through the setters of their field objects (19 setter sequences x 3 entries x 15 "
+           "partners, oracle = what the entry renders now).",
+    "C10": " Depth-2 shapes (a group inside a group, built with the list methods) included.",
+    "C12": " The same sequences given as items=[...] lists and as sections of a configuration (blank / TAB "
+           "indentation) through acls() / addrgroups().",
+    "C14": " Objects born as group references with members and re-pointed to a plain address included.",
+    "C17": " Seeds carry non-default indent / max_ncwb, checked in every state.",
     "C04": " Also: standard ACLs (every list of <=3, thorough 4, of 9 source-only items, flat/numbered, "
            "with and without the nc_wildcard skip), lists of <=3 with the numeric switches on, and "
            "non-contiguous sources among plain ones.",
@@ -331,17 +340,19 @@ EXTRA = {
     "C07": " Bounds now <=4 (quick) / <=5 (thorough) sections; ACL names beginning with a type keyword; "
            "NX-OS members without sequence numbers incl. a non-contiguous one; 9 keyword-option settings "
            "(switches, versions, max_ncwb, three group_by values) must not change what is extracted.",
-    "C09": " Names chosen by range_ports()/range_protocols() are checked the same way on all three "
-           "platforms.",
     "C11": " Also: standard entries and ACLs (8 source-only lines, lists <=3/4, three skip arguments) "
-           "and pairs / ACLs with protocol_nr / port_nr on.",
-    "C13": " Also the complete family of all masks over a 5-bit (quick) / 7-bit (thorough) window x "
+           "and pairs / ACLs with protocol_nr / port_nr on; entries modified after construction (as C03).",
+    "C09": " Names chosen by range_ports()/range_protocols() are checked the same way on all three "
+           "platforms; at ACL level (group_by blocks) the version table must survive 10 object-level "
+           "operations.",
+    "C13": " Cross-platform `in` (same text, other meaning) for all 31 mask lengths; re-pointed group "
+           "references. Also the complete family of all masks over a 5-bit (quick) / 7-bit (thorough) window x "
            "tail {0,3} x 2 bases - every ordered pair - and, in thorough, every spelling x spelling "
            "for every pair of the alphabet.",
     "C15": " Also: 9 heading markers containing regular-expression metacharacters (each with a remark "
            "a pattern reading would match), 4 non-default indents, and the block structure predicted "
            "from the item list.",
-    "C16": " Also: every class built with a non-default max_ncwb (0, 4, 20).",
+    "C16": " Also: every class built with a non-default max_ncwb (0, 4, 20); nested group-object members.",
     "C18": " range_protocols templates include a port on one side only.",
     "C19": " Sequence-numbered lines (dense numbering 10, 11, ...) at every call site: quick "
            "alternates, thorough runs both.",
